@@ -208,6 +208,21 @@ PostKey(c, out, k) == Sort3([j \in 1..3 |-> PK(c, out.ppos[out.faces[k][j] + 1])
 OrderOnly(c, T) == \A m \in 1..Len(T) :
     BagEq([k \in 1..Len(T[m]) |-> OrigKey(c, T[m][k])], [k \in 1..Len(T[m]) |-> PostKey(c, c.outs[m], k)])
 
+\* the same question with everything a corner carries (split copies vertices, so tags are exact): the
+\* faces of every part are the expected ones with their data, as a bag, whatever their order
+CornerCode(p, tag, u, x) == ((p * 40 + (tag + 1)) * 8 + (u + 1)) * 8 + (x + 1)
+OrigFullKey(c, out, t) == LeastRot([j \in 1..3 |->
+    LET s == Fc(c, t)[j] IN
+    CornerCode(P(c, s), IF out.vc.has \/ out.va.has THEN s ELSE -1,
+               IF out.uv.has THEN c.uvc[s + 1] ELSE -1, IF out.vn.has THEN c.nc[s + 1] ELSE -1)])
+PostFullKey(c, out, k) == LeastRot([j \in 1..3 |->
+    LET v == out.faces[k][j] + 1 IN
+    CornerCode(out.ppos[v], IF out.vc.has THEN out.vc.v[v] ELSE IF out.va.has THEN out.va.v[v] ELSE -1,
+               IF out.uv.has THEN out.uv.v[v] ELSE -1, IF out.vn.has THEN out.vn.v[v] ELSE -1)])
+FullOrderOnly(c, T) == \A m \in 1..Len(T) :
+    BagEq([k \in 1..Len(T[m]) |-> OrigFullKey(c, c.outs[m], T[m][k])],
+          [k \in 1..Len(T[m]) |-> PostFullKey(c, c.outs[m], k)])
+
 \* ------------------------------------------------------- standalone clauses
 IndexOK(out) == \A k \in 1..Len(out.faces) : \A j \in 1..3 :
                     out.faces[k][j] >= 0 /\ out.faces[k][j] < Len(out.ppos)
@@ -308,20 +323,22 @@ Clause(c) ==
         S7 == {T \in S6 : AllMatch(c, T, {"va", "vc", "uv"}, Rot3)}
         S8 == {T \in S7 : AllMatch(c, T, {"va", "vc", "uv", "vn"}, Rot3)}
         S9 == {T \in S8 : \A m \in 1..Len(T) : FaceChanOK(outs[m].fc, T[m])}
+        \* two faces at the same three positions can be told apart by what their corners carry
+        reordered == c.op = "split" /\ \E T \in S1 : FullOrderOnly(c, T)
     IN
     IF \E m \in all : ~IndexOK(outs[m]) THEN "faces_index_existing_vertices"
     ELSE IF \E m \in all : ~PosKnown(outs[m]) THEN "vertex_at_unknown_position"
     ELSE IF Len(c.cat) = 1 /\ (~IndexOK(c.cat[1]) \/ ~PosKnown(c.cat[1])) THEN "concatenated_parts_index_or_position"
     ELSE IF S1 = {} THEN "surviving_face_set"
     ELSE IF S2 = {} THEN (IF \E T \in S1 : OrderOnly(c, T) THEN "relative_order" ELSE "corner_positions")
-    ELSE IF S3 = {} THEN "winding_cyclic_order"
+    ELSE IF S3 = {} THEN (IF reordered THEN "relative_order" ELSE "winding_cyclic_order")
     ELSE IF \E m \in all : ~CountsOK(c, outs[m]) THEN "data_row_count"
     ELSE IF S4 = {} THEN "face_attribute"
     ELSE IF \E m \in all : ~FaceNormalOK(outs[m]) THEN "face_normal"
-    ELSE IF S5 = {} THEN "vertex_attribute_at_corner"
-    ELSE IF S6 = {} THEN "vertex_color_at_corner"
-    ELSE IF S7 = {} THEN "texture_uv_at_corner"
-    ELSE IF S8 = {} THEN "vertex_normal_at_corner"
+    ELSE IF S5 = {} THEN (IF reordered THEN "relative_order" ELSE "vertex_attribute_at_corner")
+    ELSE IF S6 = {} THEN (IF reordered THEN "relative_order" ELSE "vertex_color_at_corner")
+    ELSE IF S7 = {} THEN (IF reordered THEN "relative_order" ELSE "texture_uv_at_corner")
+    ELSE IF S8 = {} THEN (IF reordered THEN "relative_order" ELSE "vertex_normal_at_corner")
     ELSE IF \E m \in all : ~VertexDataOK(c, outs[m]) THEN "vertex_data_from_other_position"
     ELSE IF \E m \in all : ~VertexChannelsAgree(c, outs[m]) THEN "vertex_channels_disagree"
     ELSE IF HasExactVerts(c) /\ ~ExactVertsOK(c, outs[1]) THEN "vertex_list_exact"
